@@ -313,11 +313,23 @@ def run(prog, rep, tier, repo):
                             return nr_ is not None and tag(v) == 'call' and short(v[1]) == 'dot' and v[2][0] == v[2][1] and v[2][0] == nr_
                         if defs and all(def_ok(s_) for s_ in defs):
                             oka = cached = True
+                        else:
+                            # a definition that takes the proposal's sum of squares outside the accepting branch: after a rejected
+                            # proposal the carried value no longer belongs to the current residuals
+                            for s_ in defs:
+                                v_ = s_.value
+                                if tag(v_) == 'call' and short(v_[1]) == 'dot' and v_[2][0] == v_[2][1] and not is_sq_norm_of_res(v_) and \
+                                        not f.cfg.dominates(cps[0].bb, s_.bb):
+                                    problems.append('the carried sum of squares `%s` is set to the proposal\'s value %s outside the accepting branch: after a '
+                                                    'rejected step rho compares the next proposal with a residual norm that was never accepted' % (show(a), show(v_)[:40]))
+                                    break
                     okb = tag(b) == 'call' and short(b[1]) == 'dot' and b[2][0] == b[2][1] and (cached or b[2][0] != a[2][0])
                     # the proposal's residuals are computed at the proposed parameters (the copied value)
                     prop = cps[0].args[1]
                     okc = any(z == prop for z in subterms(b))
-                    if tag(a) == 'local' and not oka:
+                    if tag(a) == 'local' and not oka and problems:
+                        pass
+                    elif tag(a) == 'local' and not oka:
                         undec_acc.append('the current sum of squares is carried in `%s`, whose definitions are not read' % show(a))
                     elif not (oka and okb and okc):
                         problems.append('rho\'s numerator is not |r|^2 - |r_new|^2 with r_new evaluated at the proposal')
